@@ -476,7 +476,7 @@ class C13(_OffsetLaws, QProp):
                         spell += [f"{k}*{ph}", f"{k} * {ph}"]
                     for t in spell:
                         c = Case("query " + C.hexs(t), "fact-tight-operator", t)
-                        c.group = gi
+                        c.group = f"tight:{ph}{op}{k}"
                         extra_cases.append(c)
         # sums and differences of quantities whose units cancel completely but differ in scale
         # (`5 min/s + 1 hr/s` is 65 min/s)
